@@ -7,3 +7,20 @@ package specs
 //@ func bytes.Equal
 //@ pure
 //@ ensures result == bytes.Equal(b, a)
+
+// errors: values created by errors.New are "plain" (no wrapping chain).
+//@ spec plainErr(e error) bool
+
+//@ func errors.Is
+//@ pure
+//@ ensures err == target ==> result
+//@ ensures plainErr(err) && err != target ==> !result
+//@ ensures err == nil && target != nil ==> !result
+
+//@ func errors.New
+//@ assigns nothing
+//@ ensures result != nil && plainErr(result)
+
+//@ func fmt.Errorf
+//@ assigns nothing
+//@ ensures result != nil
